@@ -305,6 +305,30 @@ theorem svPushList_ok (k : Kind) (cap base : Nat) : ∀ (xs : List Nat) (m : Mem
     rw [s2 y, s1 y]
     ifs
 
+theorem svPushValues_ok (k : Kind) (cap base : Nat) : ∀ (xs : List Nat) (m : Mem) (n : Nat), n + xs.length ≤ cap →
+    (∀ y, base + n ≤ y → y < base + n + xs.length → m.sh y = some none) →
+    ∃ m', svPushValues k cap base xs m n = .ok (m', n + xs.length) ∧
+      (∀ y, m'.sh y = if base + n ≤ y ∧ y < base + n + xs.length then some (some 0) else m.sh y) ∧
+      (Bal m → Bal m') := by
+  intro xs
+  induction xs with
+  | nil =>
+    intro m n _ _
+    refine ⟨m, rfl, fun y => ?_, id⟩
+    rw [if_neg (by simp only [List.length_nil]; omega)]
+  | cons x xs ih =>
+    intro m n hc hd
+    simp only [List.length_cons] at hc hd ⊢
+    obtain ⟨m1, r1, s1, b1⟩ := svEmplaceBack_ok k (cap := cap) (h := .value x) (by omega)
+      (hd (base + n) (by omega) (by omega)) trivial
+    obtain ⟨m2, r2, s2, b2⟩ := ih m1 (n + 1) (by omega)
+      (fun y h1 h2 => by rw [s1 y, if_neg (by omega)]; exact hd y (by omega) (by omega))
+    have e : n + 1 + xs.length = n + (xs.length + 1) := by omega
+    rw [e] at r2
+    refine ⟨m2, by simp [svPushValues, r1, r2], fun y => ?_, fun hb => b2 (b1 hb)⟩
+    rw [s2 y, s1 y]
+    ifs
+
 /-- `cnt` elements appended, then rotated into position: the shape is that of the appended vector -/
 theorem insert_tail (k : Kind) {cap base tmp : Nat} {m m1 : Mem} {n pos cnt : Nat} (hv : VecAt m base cap n)
     (hpos : pos ≤ n) (hcap : n + cnt ≤ cap) (htmp : m.sh tmp = some none) (hto : tmp < base ∨ base + cap ≤ tmp)
@@ -496,6 +520,34 @@ theorem svAssignList_ok (k : Kind) {cap base tmp : Nat} {m : Mem} {n : Nat} (xs 
   obtain ⟨m2, r2, v2⟩ := svInsertList_ok k (pos := 0) xs v1.upd.at (Nat.le_refl _) (by omega)
     (by rw [v1.upd.out hto]; exact htmp) hto
   exact ⟨m2, _, by simp only [svAssignList, Nat.not_lt.mpr hcnt, if_false, r1]; exact r2, v1.trans v2⟩
+
+theorem svCtorN_ok (k : Kind) {cap base loc : Nat} {m : Mem} {n sz : Nat} (hv : VecAt m base cap n)
+    (hn : n ≤ cap) (hsz : sz ≤ cap) (hloc : m.sh loc = some none) (hlo : loc < base ∨ base + cap ≤ loc) :
+    ∃ m' n', svCtorN k cap base loc m n sz = .ok (m', n') ∧ VRes cap base m m' n' := by
+  obtain ⟨m1, r1, v1, _⟩ := svClear_ok hv hn
+  have hv1 := v1.upd.at
+  obtain ⟨m2, r2, s2, b2⟩ := svEmplaceN_ok k cap base loc sz m1 0 (by omega)
+    (fun y h1 h2 => hv1.dead h1 (by omega)) (by rw [v1.upd.out hlo]; exact hloc) hlo
+  refine ⟨m2, _, by simp only [svCtorN, r1, Nat.not_lt.mpr hsz, if_false]; exact r2, v1.trans ⟨by omega, fun y => ?_, b2⟩⟩
+  rw [s2 y]
+  (repeat' split) <;> vec_leaf hv1, y
+
+theorem svCtorNV_ok (k : Kind) {cap base tmp : Nat} {m : Mem} {n cnt : Nat} (x : Nat) (hv : VecAt m base cap n)
+    (hn : n ≤ cap) (hcnt : cnt ≤ cap) (htmp : m.sh tmp = some none) (hto : tmp < base ∨ base + cap ≤ tmp) :
+    ∃ m' n', svCtorNV k cap base tmp m n cnt x = .ok (m', n') ∧ VRes cap base m m' n' := by
+  obtain ⟨m1, r1, v1, _⟩ := svClear_ok hv hn
+  obtain ⟨m2, r2, v2⟩ := svInsertN_ok k (pos := 0) (cnt := cnt) x v1.upd.at (Nat.le_refl _) (by omega)
+    (by rw [v1.upd.out hto]; exact htmp) hto
+  exact ⟨m2, _, by simp only [svCtorNV, Nat.not_lt.mpr hcnt, if_false, r1]; exact r2, v1.trans v2⟩
+
+theorem svCtorList_ok (k : Kind) {cap base tmp : Nat} {m : Mem} {n : Nat} (xs : List Nat)
+    (hv : VecAt m base cap n) (hn : n ≤ cap) (hcnt : xs.length ≤ cap) (htmp : m.sh tmp = some none)
+    (hto : tmp < base ∨ base + cap ≤ tmp) :
+    ∃ m' n', svCtorList k cap base tmp m n xs = .ok (m', n') ∧ VRes cap base m m' n' := by
+  obtain ⟨m1, r1, v1, _⟩ := svClear_ok hv hn
+  obtain ⟨m2, r2, v2⟩ := svInsertList_ok k (pos := 0) xs v1.upd.at (Nat.le_refl _) (by omega)
+    (by rw [v1.upd.out hto]; exact htmp) hto
+  exact ⟨m2, _, by simp only [svCtorList, Nat.not_lt.mpr hcnt, if_false, r1]; exact r2, v1.trans v2⟩
 
 /-- copy / move construction of the empty vector at `dst` from the `ns` live elements at `src`: the new
     elements hold what the sources held -/
@@ -995,6 +1047,21 @@ theorem vstep_inv_sv (k : Kind) (cap : Nat) (s : St) (t : Bool) (op : VOp) (hi :
     have h := upd_inv hi ⟨m2, _, r2, v1.trans v2⟩
     simp only [vstep, r1]
     exact h
+  | ctorN sz =>
+    have hp : sz ≤ cap := by simpa [vvalid] using hv
+    obtain ⟨m', n', r, v⟩ := svCtorN_ok k hva hna hp ht1 (out_t1 cap t)
+    have h := upd_inv hi ⟨m', n', r, v⟩
+    exact h
+  | ctorNV cnt x =>
+    have hp : cnt ≤ cap := by simpa [vvalid] using hv
+    obtain ⟨m', n', r, v⟩ := svCtorNV_ok k x hva hna hp ht0 (out_t0 cap t)
+    have h := upd_inv hi ⟨m', n', r, v⟩
+    exact h
+  | ctorR xs =>
+    have hp : xs.length ≤ cap := by simpa [vvalid] using hv
+    obtain ⟨m', n', r, v⟩ := svCtorList_ok k xs hva hna hp ht0 (out_t0 cap t)
+    have h := upd_inv hi ⟨m', n', r, v⟩
+    exact h
   | cassign =>
     obtain ⟨m', r, v, _, _⟩ := svAssignFrom_ok k false (src := baseOf cap (!t)) (ns := s.sz (!t)) hva hna
       (fun y h1 h2 => hvo.live hno h1 h2) hno (by have := out_ob cap t; omega)
@@ -1085,6 +1152,9 @@ theorem vstep_inv_iv (k : Kind) (cap : Nat) (s : St) (t : Bool) (op : VOp) (hi :
   | eraseRange f l => simp [vvalid] at hv
   | resize sz => simp [vvalid] at hv
   | resizev sz x => simp [vvalid] at hv
+  | ctorN sz => simp [vvalid] at hv
+  | ctorNV cnt x => simp [vvalid] at hv
+  | ctorR xs => simp [vvalid] at hv
   | assignn cnt x => simp [vvalid] at hv
   | assignr xs => simp [vvalid] at hv
   | eraseIf md r => simp [vvalid] at hv
